@@ -1,6 +1,6 @@
 (* C03: a dumped data package loads back to the same typed data. *)
 From Coq Require Import List ZArith Bool.
-From DF Require Import Base.Str Base.Lits Base.Value IO.Csv IO.Codec IO.Codec_proofs Gen.Consts.
+From DF Require Import Base.Str Base.Lits Base.Value IO.Csv IO.Csv_proofs IO.Codec IO.Codec_proofs Gen.Consts.
 Import ListNotations.
 Open Scope Z_scope.
 
@@ -43,6 +43,32 @@ Theorem C03_dump_load_csv : forall int_str int_parse dec_str dec_parse date_str 
                /\ cast_rows int_parse dec_parse date_parse time_parse dt_parse year_parse json_parse schema body = Some rows.
 Proof. exact dump_load_csv. Qed.
 Print Assumptions C03_dump_load_csv.
+
+(* the CSV layer itself: Python's csv reader on what Python's csv writer wrote (the recorded dialect)
+   returns the written records, for every table and every cell text *)
+Theorem C03_csv_layer_roundtrip : forall recs, read_csv (write_csv recs) = Ok recs.
+Proof. exact csv_roundtrip. Qed.
+Print Assumptions C03_csv_layer_roundtrip.
+
+(* hence the table-level statement without the premise *)
+Theorem C03_dump_load_csv_total : forall int_str int_parse dec_str dec_parse date_str date_parse time_str time_parse
+    dt_str dt_parse year_str year_parse json_str json_parse,
+  (forall z, int_parse (int_str z) = Some z) -> (forall m e, dec_parse (dec_str m e) = Some (m, e)) ->
+  (forall y m d, date_parse (date_str y m d) = Some (y, m, d)) ->
+  (forall h mi sc, time_parse (time_str h mi sc) = Some (h, mi, sc)) ->
+  (forall y mo d h mi sc, dt_parse (dt_str y mo d h mi sc) = Some (y, mo, d, h, mi, sc)) ->
+  (forall z, year_parse (year_str z) = Some z) -> (forall v, json_parse (json_str v) = Some v) ->
+  (forall z, int_str z <> []) -> (forall m e, dec_str m e <> []) -> (forall y m d, date_str y m d <> []) ->
+  (forall h mi sc, time_str h mi sc <> []) -> (forall y mo d h mi sc, dt_str y mo d h mi sc <> []) ->
+  (forall z, year_str z <> []) -> (forall v, json_str v <> []) ->
+  forall schema rows recs,
+  NoDup (map fst schema) ->
+  (forall r, In r rows -> rkeys r = map fst schema /\ forall n t, In (n, t) schema -> typed t (rget0 r n) = true) ->
+  serialise_rows int_str dec_str date_str time_str dt_str year_str json_str schema rows = Some recs ->
+  exists body, read_csv (write_csv (map fst schema :: recs)) = Ok (map fst schema :: body)
+               /\ cast_rows int_parse dec_parse date_parse time_parse dt_parse year_parse json_parse schema body = Some rows.
+Proof. exact dump_load_csv_total. Qed.
+Print Assumptions C03_dump_load_csv_total.
 
 (* tie to the source (regenerated): what the CSV dumper stamps into the descriptor is what the
    cell codecs above assume -- '' is the null text, booleans are written as True/False *)
